@@ -11,6 +11,7 @@ use std::task::{Context, Poll, Waker};
 use std::time::Duration;
 
 use beetswap::verif::{self as v, BlockPresence, BlockPresenceType, Entry, Message, ProtoWantlist, WantType};
+use beetswap::multihasher::{Multihasher, MultihasherError};
 use beetswap::Behaviour;
 use bytes::BytesMut;
 use futures::{AsyncReadExt, AsyncWriteExt, StreamExt};
@@ -21,6 +22,7 @@ use libp2p_swarm::dial_opts::{DialOpts, PeerCondition};
 use libp2p_swarm::{StreamProtocol, Swarm};
 
 use crate::keys::{cid_of_key, id_of_data, preimage_of_key, S};
+use multihash_codetable::{Code, MultihashDigest};
 use crate::node::Fmt;
 use crate::rng::Rng;
 use crate::sim::{keypair_of, make_tables, Flag, Rec, Recorder, Wrap};
@@ -53,6 +55,24 @@ impl std::future::Future for YieldN {
     }
 }
 
+/// A registered multihasher for sha2-256 whose future does not complete at its first poll: it
+/// yields `polls` times before it answers (the built-in table never suspends, so without it
+/// `IncomingStream`'s "message still being processed" state is never reached).
+struct SlowSha {
+    polls: u32,
+}
+
+impl Multihasher<S> for SlowSha {
+    async fn hash(&self, code: u64, input: &[u8]) -> Result<multihash::Multihash<S>, MultihasherError> {
+        if code != 0x12 {
+            return Err(MultihasherError::UnknownMultihashCode);
+        }
+        YieldN(self.polls).await;
+        let d = Code::Sha2_256.digest(input);
+        multihash::Multihash::<S>::wrap(0x12, d.digest()).map_err(|_| MultihasherError::InvalidMultihashSize)
+    }
+}
+
 fn new_task(fut: BoxFut) -> Task {
     let flag = Arc::new(Flag(AtomicBool::new(true)));
     let waker = Waker::from(flag.clone());
@@ -64,12 +84,20 @@ enum Item {
     Good(u64),           // a wantlist update wanting key k
     Bad(&'static str),   // a frame of the given bad kind
     Empty(u8),           // a valid frame with nothing to forward: the stream must go on
+    Blocks(Vec<u64>),    // a frame carrying the blocks of these keys (each hashed by the node when it arrives)
 }
 
 fn encode(m: &Message) -> Vec<u8> {
     let mut b = BytesMut::new();
     v::codec_encode(m, &mut b).expect("encode");
     b.to_vec()
+}
+
+fn block_frame(ks: &[u64]) -> Vec<u8> {
+    encode(&Message {
+        payload: ks.iter().map(|k| v::Block { prefix: v::VPrefix::from_cid(&cid_of_key(*k)).to_bytes(), data: preimage_of_key(*k) }).collect(),
+        ..Default::default()
+    })
 }
 
 fn want_frame(k: u64) -> Vec<u8> {
@@ -148,7 +176,10 @@ pub fn run_one(seed: u64) -> RawResult {
     let kp1 = keypair_of(1);
     let peer0 = kp0.public().to_peer_id();
     let store = ScriptedStore::new();
-    let inner = Behaviour::<S, _>::builder(Arc::new(store.clone())).build();
+    // half of the nodes hash sha2-256 blocks with a registered hasher that suspends
+    let slow_polls = *rng.pick(&[0u32, 0, 1, 3, 40]);
+    let builder = Behaviour::<S, _>::builder(Arc::new(store.clone()));
+    let inner = if slow_polls > 0 { builder.register_multihasher(SlowSha { polls: slow_polls }).build() } else { builder.build() };
     let rec = Arc::new(Mutex::new(Rec::default()));
     rec.lock().unwrap().ops.push("n reset 1".into());
     rec.lock().unwrap().imp.push("ok".into());
@@ -198,13 +229,17 @@ pub fn run_one(seed: u64) -> RawResult {
                 items.push(Item::Bad(*rng.pick(&BAD_KINDS)));
             } else if rng.chance(1, 4) {
                 items.push(Item::Empty(rng.below(3) as u8));
+            } else if rng.chance(1, 3) {
+                // blocks in small keys of the sha2-256 classes (0, 1, 2, 6 mod 7) and others
+                let n = 1 + rng.below(2);
+                items.push(Item::Blocks((0..n).map(|_| *rng.pick(&[0u64, 1, 2, 6, 7, 8, 3, 4])).collect()));
             } else {
                 items.push(Item::Good(*rng.pick(&[0u64, 1, 2, 3, 4, 5, 90, 91, 90])));
             }
         }
         script.push(items);
     }
-    let mut trace = vec![format!("seed={seed} content={:?} reader_mode={reader_mode} delay={reader_delay} cut={reader_cut} script={script:?}", content.keys().collect::<Vec<_>>())];
+    let mut trace = vec![format!("seed={seed} content={:?} reader_mode={reader_mode} delay={reader_delay} cut={reader_cut} slow_hasher_polls={slow_polls} script={script:?}", content.keys().collect::<Vec<_>>())];
     // expected: wantlists of good frames that precede every bad frame of their stream
     let mut expected: Vec<u64> = vec![];
     for items in &script {
@@ -212,7 +247,25 @@ pub fn run_one(seed: u64) -> RawResult {
             match it {
                 Item::Good(k) => expected.push(*k),
                 Item::Empty(_) => {}
+                Item::Blocks(_) => {}
                 Item::Bad(_) => break,
+            }
+        }
+    }
+    // … and the block frames that precede every bad frame of their stream
+    let mut expected_blocks: Vec<u64> = vec![];
+    for items in &script {
+        for it in items {
+            match it {
+                Item::Blocks(ks) => {
+                    // the blocks of one message are collected in a map keyed by the recomputed CID
+                    let mut d = ks.clone();
+                    d.sort();
+                    d.dedup();
+                    expected_blocks.extend(d);
+                }
+                Item::Bad(_) => break,
+                _ => {}
             }
         }
     }
@@ -225,6 +278,7 @@ pub fn run_one(seed: u64) -> RawResult {
                 Item::Good(k) => all.extend(want_frame(*k)),
                 Item::Bad(kind) => all.extend(bad_frame(kind, &mut rng)),
                 Item::Empty(kind) => all.extend(empty_frame(*kind)),
+                Item::Blocks(ks) => all.extend(block_frame(ks)),
             }
         }
         let mut chunks = vec![];
@@ -390,6 +444,45 @@ pub fn run_one(seed: u64) -> RawResult {
                 if let Ok(k) = e.parse::<u64>() {
                     got.push(k);
                 }
+            }
+        }
+    }
+    // blocks the node's behaviour was handed (recomputed CID, data) by its inbound streams
+    let mut got_blocks: Vec<u64> = vec![];
+    for o in r.ops.iter() {
+        let f: Vec<&str> = o.split(' ').collect();
+        if f.len() == 7 && f[1] == "msg" && f[5].len() > 2 {
+            for e in f[5][2..].split(',') {
+                if let Some((k, d)) = e.split_once(':') {
+                    match (k.parse::<u64>(), d.parse::<u64>()) {
+                        (Ok(k), Ok(d)) if d == k * 100 => got_blocks.push(k),
+                        _ => violations.push(("C01".into(), format!("the behaviour was handed block `{e}`: the CID is not the one recomputed from the data"))),
+                    }
+                }
+            }
+        }
+    }
+    {
+        let (mut a, mut b) = (expected_blocks.clone(), got_blocks.clone());
+        a.sort();
+        b.sort();
+        trace.push(format!("expected blocks {expected_blocks:?}, behaviour was handed {got_blocks:?}"));
+        for k in &a {
+            let (na, nb) = (a.iter().filter(|x| *x == k).count(), b.iter().filter(|x| *x == k).count());
+            if nb < na {
+                let txt = format!("a valid frame with the block of cid {k} (on a stream of its own or before any bad frame) did not reach the behaviour: expected {na}, handed over {nb}");
+                violations.push(("C16".into(), txt.clone()));
+                if slow_polls > 0 {
+                    violations.push(("C18".into(), format!("{txt} — the block is hashed by a registered multihasher whose future suspends")));
+                }
+                break;
+            }
+        }
+        for k in &b {
+            let (na, nb) = (a.iter().filter(|x| *x == k).count(), b.iter().filter(|x| *x == k).count());
+            if nb > na {
+                violations.push(("C16".into(), format!("a block frame that follows a bad frame on the same stream was applied (cid {k}: expected {na}, handed over {nb})")));
+                break;
             }
         }
     }
